@@ -122,11 +122,18 @@ pub fn run(prog: &Program, cfg: &RunCfg) -> Result<RunStats, Failure> {
         let mut repl = sim.repl.take().expect("repl");
         let sub = repl.evaluate(&mut sim.env, line, types);
         sim.repl = Some(repl);
+        if prog.must_reject && li == 0 && sub.is_ok() {
+            return Err(mk("probe-compiles", format!("`{line}` was expected to be rejected by the front end but compiles"), false, &sim, li));
+        }
         let req = match sub {
             Ok(Some(id)) => id,
             Ok(None) => {
                 outcomes.push("nocode".into());
                 continue;
+            }
+            Err(e) if prog.must_reject => {
+                outcomes.push(format!("rejected-as-expected:{e:?}"));
+                break;
             }
             Err(e) => {
                 // the generator only emits accepted programs; a rejection is a generator bug
